@@ -336,7 +336,7 @@ def float_train_lists(draw, min_trains=2, max_trains=2, max_spikes=8):
 
 
 def float_mrts(ln):
-    return st.one_of(st.none(), st.just(0.0),
+    return st.one_of(st.none(), st.just(0.0), st.just("auto"),
                      st.integers(1, 1 << 21).map(lambda k: ln * k / float(1 << 20)))
 
 
